@@ -23,7 +23,7 @@ tupleof = z3.Function('tuple', Val, Val)
 
 ASSUMPTIONS = (
     'stdlib managers.BaseProxy.__init__(..., incref=True) calls self._incref() exactly once (and not at all with incref=False) (managers.py:755-797)',
-    'stdlib managers.Server.decref: under the mutex refcount[ident] -= 1; at 0 the refcount entry and then the id_to_obj entry are deleted, which drops the server\'s only reference to the hosted object (managers.py:440-465)',
+    'dropping the id_to_obj entry drops the server\'s only reference to the hosted object (the tuple popped in Server.decref is released when the function returns, outside the mutex)',
     'util.Finalize(obj, f, args, exitpriority): f(*args) is called exactly once: when obj is garbage collected, when called explicitly, or at process exit (exitpriority not None)',
     'stdlib dispatch(conn, None, name, args) delivers one request to the server, which runs Server.<name>(conn, *args) once',
     'CPython drops an object when its last reference goes (the hosted MemoryBlock is referenced only by id_to_obj and by in-flight method calls)',
@@ -292,42 +292,124 @@ class ServerIncref(Unit):
                 ex.oblige(s, 'exit(raise): only KeyError for an ident that is not hosted; nothing changed', z3.And(V.isinst(p, 'KeyError'), self.mutex.held(s) == 0, self.rc.arr(s) == a0) if a0 is not None else z3.BoolVal(False))
 
 
+STDLIB_MANAGERS = None
+
+
+def stdlib_managers_path():
+    """managers.py of the interpreter that runs the repository (the /venv python), not of the tooling venv"""
+    global STDLIB_MANAGERS
+    if STDLIB_MANAGERS is None:
+        import subprocess
+        STDLIB_MANAGERS = subprocess.run(['/venv/bin/python', '-c', 'import multiprocessing.managers as m; print(m.__file__)'], capture_output=True, text=True).stdout.strip()
+    return STDLIB_MANAGERS
+
+
 class ServerDecref(Unit):
+    """Server.decref under interference.  Server invariant G, required whenever the mutex is free and after every step made
+    without it:  refcount[i] present  ==>  id_to_obj[i] present  (a counted object is registered: every live reference can use
+    it).  Other server threads (create via managed(), incref, decref of other idents) run whenever the mutex is free; they
+    preserve G themselves (units Server.create / incref / this one).  If the code still delegates to the stdlib's
+    Server.decref, that function's real source (managers.py of the /venv interpreter) is inlined and checked the same way:
+    its unregistering step runs in a second critical section, after the count was already given up -- G fails there
+    (that was the pinned tree: fixed in a496310)."""
     prop = 'C13'
     file = F
     qual = 'Server.decref'
     assert_mode = 'raise'
-    canaries = (('decref forwarded for another ident', 'super().decref(c, ident)', 'super().decref(c, c)', ''),)
+    numeric_vals_are_ints = True
+    ignore_calls = ('util.debug',)
+    canaries = (('object unregistered in a later, separate critical section', "                obj = self.id_to_obj.pop(ident)\n", "                obj = None\n                drop = True\n", ''),
+                ('count decremented outside the mutex', '        with self.mutex:\n            assert (', '        if True:\n            assert (', 'under the mutex'),
+                ('decrement applied to another ident', 'self.id_to_refcount[ident] -= 1', 'self.id_to_refcount[c] -= 1', ''))
 
     def setup(self, ex):
         st = St()
         self.ident = z3.Const('ident', Val)
+        self.other = z3.Const('other_ident', Val)
+        self.mutex = Lock(ex, 'mutex')
+        self.mutex.init(st)
         self.rc = SharedMap(ex, 'id_to_refcount').init(st, z3.Const('refcount0', z3.ArraySort(Val, Val)), z3.Int('nrc0'))
-        me = Rec(ex, 'self', immutable=True).init(st, id_to_refcount=self.rc)
-        st.env.update(self=me, c=z3.Const('c', Val), ident=self.ident)
-        st.ghost['ev'] = ()
+        self.objs = SharedMap(ex, 'id_to_obj').init(st, z3.Const('id_to_obj0', z3.ArraySort(Val, Val)), z3.Int('nobj0'))
+        self.me = Rec(ex, 'self', immutable=True).init(st, mutex=self.mutex, id_to_refcount=self.rc, id_to_obj=self.objs)
+        st.env.update(self=self.me, c=z3.Const('c', Val), ident=self.ident)
+        st.assume(z3.Not(V.is_intv(Absent)), Absent != NONE)
+        self.typed(st)
+        st.assume(self.G(st))
+        st.ghost['#at_acquire'] = None
+        st.ghost['#sections'] = 0
         return st
 
+    def typed(self, st):
+        for i in (self.ident, self.other):
+            r = z3.Select(self.rc.arr(st), i)
+            st.assume(z3.Or(r == Absent, V.is_intv(r)))
+
+    def G(self, st):
+        return z3.And([z3.Implies(z3.Select(self.rc.arr(st), i) != Absent, z3.Select(self.objs.arr(st), i) != Absent) for i in (self.ident, self.other)])
+
+    def havoc_shared(self, st, why):
+        self.rc.set(st, 'arr', fresh('refcount_' + why, z3.ArraySort(Val, Val)))
+        self.objs.set(st, 'arr', fresh('id_to_obj_' + why, z3.ArraySort(Val, Val)))
+        self.typed(st)
+        st.assume(self.G(st))          # rely: the other threads preserve G
+
     def interfere(self, ex, st, m, node):
-        pass
+        if not z3.is_true(z3.simplify(self.mutex.held(st) > 0)):
+            self.havoc_shared(st, 'interference')
+
+    def on_acquire(self, ex, st, lock, node):
+        self.havoc_shared(st, 'at_acquire')
+        st.ghost['#at_acquire'] = (self.rc.arr(st), self.objs.arr(st))
+        st.ghost['#sections'] = st.ghost['#sections'] + 1
+
+    def on_release(self, ex, st, lock, node):
+        ex.oblige(st, f'line {node.lineno}: invariant G when the mutex is released: a counted object is registered (refcount[i] present ==> id_to_obj[i] present)', self.G(st))
+
+    def after_map_write(self, ex, st, m, kind, k, v, node):
+        if not z3.is_true(z3.simplify(self.mutex.held(st) > 0)):
+            ex.oblige(st, f'line {node.lineno}: invariant G after a step made without the mutex', self.G(st))
+        if m is self.rc:
+            ex.oblige(st, f'line {node.lineno}: the count is read and written under the mutex', self.mutex.held(st) > 0)
 
     def on_call(self, ex, st, e, src):
         if src == 'super().decref':
+            # the stdlib's Server.decref: its real source, inlined (self bound to the same object)
+            import ast as _ast
+            from pyvc.core import Closure
+            from pyvc.unit import find_function, load_source
+            path = stdlib_managers_path()
+            fn = find_function(_ast.parse(load_source(path)), 'Server.decref')
+            self.assumed_contracts = (f'stdlib {path}::Server.decref inlined from its source',)
+
             def f(s, ak):
-                s = s.fork()
-                ev(s, 'stdlib-decref', tuple(box(ex, x) for x in ak[0]))
-                return [('ok', s, NONE)]
+                return ex.inline(s, Closure(fn, ex), [self.me] + list(ak[0]), ak[1], e)
             return ex.bind(ex.evargs(e, st), f)
+        if src.endswith('.format'):
+            return [('ok', st, fresh('formatted', z3.StringSort()))]
         return None
 
+    def sym_attr_fallback(self):
+        pass
+
     def post(self, ex, outs):
-        hosted = z3.Select(self.rc.arr(outs[0][1]), self.ident) != Absent if outs else None
         for k, s, p in outs:
-            d = [e_ for e_ in s.ghost['ev'] if e_[0] == 'stdlib-decref']
+            ex.oblige(s, 'exit: invariant G, mutex released', z3.And(self.G(s), self.mutex.held(s) == 0))
+            aa = s.ghost.get('#at_acquire')
             if k in ('normal', 'return'):
-                ex.oblige(s, 'exit: exactly one stdlib decref for this ident (which decrements and, at 0, disposes of the object)', z3.And(z3.BoolVal(len(d) == 1 and len(d[0][1]) == 2), d[0][1][1] == self.ident) if len(d) == 1 else z3.BoolVal(False))
+                if aa is None:
+                    ex.oblige(s, 'exit: the decrement happened in a critical section', False)
+                    continue
+                rc0, ob0 = aa
+                old = z3.Select(rc0, self.ident)
+                # effect, relative to the state when the (last) critical section began: one decrement; at 0 both entries go, in that same section
+                ex.oblige(s, 'exit: exactly one decrement of this ident, in ONE critical section; when it reaches 0 the count AND the registration are removed in that same section; every other ident untouched',
+                          z3.And(z3.BoolVal(s.ghost['#sections'] == 1), old != Absent, V.ival(old) >= 1,
+                                 z3.If(V.ival(old) == 1, z3.And(z3.Select(self.rc.arr(s), self.ident) == Absent, z3.Select(self.objs.arr(s), self.ident) == Absent),
+                                       z3.And(z3.Select(self.rc.arr(s), self.ident) == V.intv(V.ival(old) - 1), z3.Select(self.objs.arr(s), self.ident) == z3.Select(ob0, self.ident))),
+                                 z3.Implies(self.other != self.ident, z3.And(z3.Select(self.rc.arr(s), self.other) == z3.Select(rc0, self.other), z3.Select(self.objs.arr(s), self.other) == z3.Select(ob0, self.other)))))
             else:
-                ex.oblige(s, 'exit(raise): only for an ident without a count (already disposed of): AssertionError, nothing decremented', z3.And(V.isinst(p, 'AssertionError'), z3.BoolVal(len(d) == 0), z3.Not(hosted)))
+                ex.oblige(s, 'exit(raise): only AssertionError (ident without a positive count: already disposed of); nothing changed in that section',
+                          z3.And(V.isinst(p, 'AssertionError'), z3.BoolVal(aa is not None), self.rc.arr(s) == aa[0] if aa else z3.BoolVal(False), self.objs.arr(s) == aa[1] if aa else z3.BoolVal(False)))
 
 
 class ProxyInit(Unit):
@@ -847,6 +929,6 @@ class C13Lemma(LemmaUnit):
 
 UNITS = [ServerCreate, ServerCreateBadArgs, ServerCreateTyped, ServerCreateCallable, MakeProxy, MakeProxyAuto, MakeProxyMemory, ServerIncref, ServerDecref, ProxyInit, ProxyIncref, ProxyIncrefInServer, ProxyDispatch,
          ProxyDecref, ProxyDecrefInServer, ProxyReduce, ProxyReduceInServer, Rebuild, RebuildInServer, Managed, ManagedOutside, MemRelease, MemInit, MemDel, C13Lemma]
-SCENARIOS = [('', 'replay/scenarios/c13_refcount_histories.py', [1, 2, 3, 4, 5, 6])]
+SCENARIOS = [('Server.decref', 'replay/scenarios/c13_rewrap_vs_last_decref.py'), ('', 'replay/scenarios/c13_refcount_histories.py', [1, 2, 3, 4, 5, 6])]
 BOUNDED = [{'function': 'whole histories across processes (create/pickle/unpickle/child/store/remove/managed/delete)', 'method': 'runtime scenario replay/scenarios/c13_refcount_histories.py against a reference-count model', 'bound': '6 seeds x 45 steps (thorough tier and fallback)', 'counted_as_proved': False}]
 THOROUGH_SCENARIOS = [('', 'replay/scenarios/c13_refcount_histories.py', list(range(7, 31)), 600)]
